@@ -25,21 +25,21 @@ CLAIMS = {
          "A-NONNEG: skills push only non-negative peaks; into_vec / sort_desc not covered (std sort does not finish)"),
  "C11": ("proof", "Partial: proof that every unsafe union read in StrainsEntry is of the live field for all 2^64 bit patterns and that push()'s guard implies new_value's safety precondition for every f64; the decoder's borrowed-pointer scratch buffer is empty after every use including failed lines; clock-rate bits are never zero (NonZeroU64::new_unchecked). Bounded: no UB under Kani's memory model for StrainsVec operation sequences of <= 3 pushes. Self-referential gradual structs (lifetime transmutes) are not claimed.", "DESIGN.md §5 C11",
          "Kani memory model; sequences <= 3 pushes; gradual calculators' lifetime extension and moves not covered"),
- "C12": ("proof", "Postcondition of generate_state (C12 clauses 1-6) proved by Kani/CBMC on the real functions of all four modes for every u32 value of every optional field on the accuracy-free paths and the loop-free accuracy arms; attribute counts <= 2^20. Accuracy search arms (float loops) are thorough-tier / bounded.", "DESIGN.md §5 C12",
+ "C12": ("proof", "Postcondition of generate_state (C12 clauses 1-6) proved by Kani/CBMC on the real functions of all four modes for every u32 value of every optional field on the accuracy-free paths and the loop-free accuracy arms; attribute counts <= 2^20. The osu! accuracy search arms with one result given are complete proofs as well (the accuracy helper is under a verified function contract and used via stub_verified); the osu! no-result arm and the taiko / catch search arms are bounded; mania's search arm is not covered. ScoreState conversions round-trip (proof).", "DESIGN.md §5 C12",
          "legacy mods only; accuracy in [0,1] non-NaN; catch provided counts <= 2^30; Kani/CBMC trusted"),
  "C13": ("other", "Bounded stand-ins for two of the four modes: taiko (max_combo <= 6 quick, <= 12 thorough) and catch tiny droplets (counts <= 4 quick, <= 10 thorough): the generated state has the given misses, distributes all remaining objects, and its accuracy is at least as close to the requested one as that of EVERY other distribution (symbolic competitor, no enumeration), for every accuracy in [0,1] and every miss count. osu! (2-D window plus slider accuracy) and mania (5-D) are not covered.", "DESIGN.md §5 C13",
          "IEEE doubles handled bit-precisely by CBMC; small attribute shapes only; osu and mania not covered"),
- "C14": ("proof", "Partial: passed_objects(n) limits to exactly n for every n incl. 0 and is unlimited when unset; catch's limited object counter obeys its per-call contract (Kani, all values) and by induction (Verus lemma, unbounded) counts min(n, total), monotonically and saturating; gradual values count exactly the first i objects (bounded, from C02's obligations). osu!/taiko counting closures and mania's n_objects call site are not under contract.", "DESIGN.md §5 C14",
-         "the osu/taiko counting closures could not be lifted within the time; mania n_objects vs. map rewrites (Invert) not checked"),
- "C15": ("other", "Bounded stand-ins: iterator-protocol obligations (len/size_hint == remaining; next; Iterator::nth returns None when fewer than k+1 values remain; invariant preserved so exhausted stays exhausted without overflow) checked from every state of the representation invariant with the object count fixed per harness (0..3 quick, 4 thorough) and idx / k fully symbolic, for osu, catch, mania and the healthy taiko class; gradual performance nth/last/next for osu, mania, catch; F3/F4 (taiko) are known findings.", "DESIGN.md §5 C15",
-         "skill process/eval stubbed; inductive base case (new establishes the invariant) not proved"),
+ "C14": ("proof", "Partial: passed_objects(n) limits to exactly n for every n incl. 0 and is unlimited when unset; catch's limited object counter obeys its per-call contract (Kani, all values) and by induction (Verus lemma, unbounded) counts min(n, total), monotonically and saturating; taiko's counting closure inside the real create_difficulty_objects gives max_combo == min(n, hits) (bounded, <= 3 objects); gradual values count exactly the first i objects (bounded, from C02's obligations). osu!'s counting closure and mania's n_objects call site are not under contract (attempts run out of memory).", "DESIGN.md §5 C14",
+         "osu convert_objects does not finish in CBMC even for one object; mania n_objects vs. map rewrites (Invert) not checked"),
+ "C15": ("other", "Unbounded Verus proofs on the extracted real code for next() (osu, catch) and len() (all four modes): Some iff values remain, one step, invariant preserved, indices in bounds, len()==remaining - for every object count. Bounded stand-ins for the rest: iterator-protocol obligations (len/size_hint == remaining; next; Iterator::nth returns None when fewer than k+1 values remain; invariant preserved so exhausted stays exhausted without overflow) checked from every state of the representation invariant with the object count fixed per harness (0..3 quick, 4 thorough) and idx / k fully symbolic, for osu, catch, mania and the healthy taiko class; gradual performance nth/last/next for osu, mania, catch; F3/F4 (taiko) are known findings.", "DESIGN.md §5 C15",
+         "skill process/eval stubbed (Kani) resp. external_body contracts (Verus); inductive base case (new establishes the invariant) not proved; Iterator::nth and mania's next stay bounded"),
  "C16": ("other", "Partial, bounded: the open section's peak is always appended before export or aggregation (so all skills report the same number of sections), strains and difficulty are computed on the same conversion (call-site contract), StrainsVec iter/sum/retain/transmute equal the plain list for <= 3 pushes. The decay-weighted aggregation itself (std sort) and finiteness of peaks are not covered.", "DESIGN.md §5 C16",
          "difficulty_value (sort) did not finish and is not claimed; peaks' finiteness is float pipeline"),
  "C17": ("proof", "Partial: CS/HP given with with_mods=true are reported back unchanged for all mods and clock rates (proof); ok/meh windows exist exactly per mode (proof); HR never lowers / EZ never raises an attribute on [0,10] (proof); with_mods values give clock-rate independent windows (bounded grid); the osu! and catch difficulty setups store the builder's AR/HP/hit windows unchanged (call-site proofs); monotonicity of the five OD window tables over the f32 input domain (thorough tier; the AR table does not finish). build()/hit_windows() float agreement and the AR/OD round trip are not claimed.", "DESIGN.md §5 C17",
          "legacy mods; round trip and 1/clock_rate scaling are float identities the solver does not finish"),
  "C18": ("proof", "Complete loop-free Kani proofs: every Performance setter equals the same setter applied to the Difficulty (or is the identity where documented irrelevant) in all four modes; Difficulty survives inspect()/into_difficulty() field-wise (clock rate bit-exact); clamps to documented bounds for all f32/f64 bit patterns.", "DESIGN.md §5 C18",
          "mods = GameMods::Legacy(bits); NaN attribute overrides excluded (PartialEq not reflexive); builders created from default attributes"),
- "C19": ("proof", "Partial: taiko's tandem sort keeps sounds paired (Verus, all lengths); column_to_pos / ManiaObject::column are inverse for every key count a conversion can produce and column(x,t) < t for all f32 x (proofs); random columns stay in range for every generator state (proof); stair patterns stay below the key count (bounded span counts); effect points stay strictly ordered (bounded); catch conversion changes only mode and is_convert (proof on object-free maps). Output sortedness of the mania converter and non-negative durations are not claimed.", "DESIGN.md §5 C19",
+ "C19": ("proof", "Partial: taiko's tandem sort keeps sounds paired (Verus, all lengths); column_to_pos / ManiaObject::column are inverse for every key count a conversion can produce and column(x,t) < t for all f32 x (proofs); random columns stay in range for every generator state (proof); stair patterns stay below the key count (bounded span counts); path-object notes have duration end-start >= 0 (proof); effect points stay strictly ordered (bounded); catch conversion changes only mode and is_convert (proof on object-free maps). Output sortedness of the mania converter and non-negative durations are not claimed.", "DESIGN.md §5 C19",
          "pattern generators other than the stair are not under contract; mania legacy sort not verified"),
 }
 NA = {
